@@ -94,6 +94,20 @@ def producer(mod: Module, fn: T.Any, e: ast.AST, depth: int = 0) -> T.Tuple[T.Li
     e = _unwrap(e)
     qn = getattr(fn, 'name', '?')
     if isinstance(e, (ast.GeneratorExp, ast.ListComp)):
+        if len(e.generators) == 1 and not e.generators[0].ifs and isinstance(e.generators[0].target, ast.Tuple) \
+                and all(isinstance(t, ast.Name) for t in e.generators[0].target.elts):
+            # B3  `for digits, letters in RX.findall(s)`: findall yields one tuple of ALL groups per match ('' for a group that did
+            # not take part) - the k-th name is `m.group(k)` of the finditer form, as far as its truth value and its text go
+            src = e.generators[0].iter
+            if isinstance(src, ast.Name):
+                src = _single_def(fnn, src.id) or src
+            if isinstance(src, ast.Call) and isinstance(src.func, ast.Attribute) and src.func.attr == 'findall' and len(src.args) >= 1:
+                from ..tables import _Subst
+                names = [t.id for t in e.generators[0].target.elts]       # type: ignore[attr-defined]
+                FINDALL[0] = len(names)
+                mapping = {n: ast.parse(f'{FINDALL_M}.group({k + 1})', mode='eval').body for k, n in enumerate(names)}
+                elt = _Subst(mapping).visit(ast.parse(norm(e.elt), mode='eval').body)
+                return _split({}, elt, e.elt), src.func.value, FINDALL_M, qn
         if len(e.generators) != 1 or e.generators[0].ifs or not isinstance(e.generators[0].target, ast.Name):
             raise Undecided(f'Version tokens: cannot read the comprehension {short(e)}')
         rx = _finditer(e.generators[0].iter)
@@ -152,6 +166,8 @@ def producer(mod: Module, fn: T.Any, e: ast.AST, depth: int = 0) -> T.Tuple[T.Li
     raise Undecided(f'Version tokens: cannot read the producer {short(e)}')
 
 
+FINDALL_M = '_findall_item'
+FINDALL: T.List[int] = [0]         # number of names the findall tuples are unpacked into (0: finditer form)
 GROUPS: T.Dict[str, int] = {}        # names of the groups of the token regex at hand (B3: positional <-> named groups)
 
 
@@ -182,6 +198,7 @@ def check_tokens(ctx: RuleCtx, mod: Module, field: str) -> None:
               and any(attr_chain(t) == f'self.{field}' for t in (st.targets if isinstance(st, ast.Assign) else [st.target]))]
     if len(stores) != 1:
         raise Undecided(f'Version.__init__: expected one store to self.{field}, found {len(stores)}')
+    FINDALL[0] = 0
     rows, rx, m, qn = producer(mod, init, stores[0].value)
     where = f'Version.__init__' if qn == '__init__' else qn
     r = fold_expr(ctx.repo, mod, rx)
@@ -195,6 +212,8 @@ def check_tokens(ctx: RuleCtx, mod: Module, field: str) -> None:
     plain = re.sub(r'\(\?P<[A-Za-z_][A-Za-z_0-9]*>', '(', r.pattern)      # group names do not change the language or the numbering
     GROUPS.clear()
     GROUPS.update(compiled.groupindex)
+    if m == FINDALL_M and FINDALL[0] != compiled.groups:
+        raise Undecided(f'Version tokens: findall() tuples are unpacked into {FINDALL[0]} names but the regex has {compiled.groups} groups')
     ctx.require(plain == PATTERN and not (r.flags & ~32), 'Version token regex is digits | letters', mod, '<module>', rx, f'token regex changed: {r!r}')
     if plain != PATTERN:
         return
@@ -206,6 +225,8 @@ def check_tokens(ctx: RuleCtx, mod: Module, field: str) -> None:
             e = ast.parse(a.args[0], mode='eval').body if a.kind in ('truth', 'is') else None
             g = _group(e, m) if e is not None else None
             if a.kind == 'is' and a.args[1] == 'None' and g in (1, 2):
+                if m == FINDALL_M:
+                    raise Undecided(f'Version tokens ({where}): `{a!r}` - findall() gives \'\' (not None) for a group that did not take part')
                 facts.append((not v) if g == 1 else v)
             elif a.kind == 'truth' and g in (1, 2):
                 facts.append(v if g == 1 else (not v))
